@@ -133,6 +133,7 @@ CHECKS["C06"] = {
     "units": [
         {"pkg": "root", "run": "TestVF_C06", "rapid": {"quick": 100, "thorough": 800},
          "shards": {"quick": 8, "thorough": 16}, "timeout": {"quick": 500, "thorough": 3400}},
+        {"pkg": "root", "run": "TestVF_C06_LegacyKeyshare", "rapid": {"quick": 12, "thorough": 150}, "shards": {"quick": 2, "thorough": 4}},
         {"pkg": "root", "run": "TestVF_C06_CommitmentAccess", "rapid": {"quick": 150, "thorough": 2000}, "shards": {"quick": 1, "thorough": 4}},
     ],
 }
